@@ -19,8 +19,10 @@ NON_REQUEST = {"connect", "disconnect", "find_first", "min_version", "parse_vers
                "record_error"}
 
 ARG_TABLE = {
-    "command": [("SM,10,1,1",), ("V",), ("C,1,2",)],
-    "query": [("QM",), ("V",), ("QL,3",)],
+    # R / RB / BL are named in the primitives' own code (I/O errors ignored for them), so they
+    # are part of the alphabet: a shortcut visible in the code gets its own input
+    "command": [("SM,10,1,1",), ("V",), ("C,1,2",), ("R",), ("RB",), (" bl ",)],
+    "query": [("QM",), ("V",), ("QL,3",), ("R",), ("RB",)],
     "query_statusbyte": [()],
     "var_write": [(255, 31)],
     "var_read": [(5,)],
